@@ -302,10 +302,11 @@ theorem fletcher_spec (cfg : Cfg α) (φ : Oracle α) (s0 : Eval α) :
     refine ite_post (fun _ => post_mono (zoom_spec cfg φ s0 _ _ _ _ _) (by omega))
       (fun hA => ite_post (fun hW => post_here ⟨?_, hW⟩)
         (fun _ => ite_post (fun _ => post_mono (zoom_spec cfg φ s0 _ _ _ _ _) (by omega))
-          (fun _ => ite_post (fun _ => post_mono (post_step (ih _ _ _ _)) (by omega)) (fun _ => post_fail (by simp)))))
+          (fun _ => ite_post (fun _ => post_mono (post_step (ih _ _ _ _)) (by omega))
+            (fun _ => post_fail (by simp only [ask_trace_length]; omega)))))
     simpa using (not_or.mp hA).1
 
-theorem zoom_bounds_pos (cfg : Cfg α) (lo hi : Step α) (htau2 : 0 < cfg.tau2) (hc2 : 0 < cfg.c2) (htau3 : 0 ≤ cfg.tau3)
+theorem zoom_bounds_pos (cfg : Cfg α) (lo hi : Step α) (htau2 : 0 < cfg.tau2) (hc2 : 0 < cfg.c2)
     (htau3' : cfg.tau3 < 1) (heps : 0 ≤ cfg.eps0) (hlo : 0 ≤ lo.t) (hhi : 0 ≤ hi.t)
     (hw : absv (lo.t - hi.t) > cfg.eps0) (v : α) :
     0 < clamp v (cmin lo.t hi.t + cmin cfg.tau2 cfg.c2 * absv (hi.t - lo.t))
@@ -331,7 +332,7 @@ theorem zoom_bounds_pos (cfg : Cfg α) (lo hi : Step α) (htau2 : 0 < cfg.tau2) 
       nlinarith
 
 theorem zoom_pos (cfg : Cfg α) (φ : Oracle α) (s0 : Eval α) (htau2 : 0 < cfg.tau2) (hc2 : 0 < cfg.c2)
-    (htau3 : 0 ≤ cfg.tau3) (htau3' : cfg.tau3 < 1) (heps : 0 ≤ cfg.eps0) :
+    (htau3' : cfg.tau3 < 1) (heps : 0 ≤ cfg.eps0) :
     ∀ (n : Nat) (lo hi : Step α) (ctx : Ctx α), 0 ≤ lo.t → 0 ≤ hi.t →
       (zoom cfg φ s0 n lo hi ctx).ok = true → 0 < (zoom cfg φ s0 n lo hi ctx).t := by
   intro n
@@ -341,7 +342,7 @@ theorem zoom_pos (cfg : Cfg α) (φ : Oracle α) (s0 : Eval α) (htau2 : 0 < cfg
     intro lo hi ctx hlo hhi
     simp only [zoom]
     refine ite_post (P := fun r : Res α => r.ok = true → 0 < r.t) (fun hw => ?_) (fun _ h => by simp at h)
-    have hpos := zoom_bounds_pos cfg lo hi htau2 hc2 htau3 htau3' heps hlo hhi hw (cfg.interp lo hi)
+    have hpos := zoom_bounds_pos cfg lo hi htau2 hc2 htau3' heps hlo hhi hw (cfg.interp lo hi)
     refine ite_post (P := fun r : Res α => r.ok = true → 0 < r.t)
       (fun _ => ite_post (P := fun r : Res α => r.ok = true → 0 < r.t) (fun _ => ih _ _ _ hlo (le_of_lt hpos))
         (fun _ => ite_post (P := fun r : Res α => r.ok = true → 0 < r.t) (fun _ _ => hpos)
@@ -350,7 +351,7 @@ theorem zoom_pos (cfg : Cfg α) (φ : Oracle α) (s0 : Eval α) (htau2 : 0 < cfg
     exact ite_post (P := fun s : Step α => 0 ≤ s.t) (fun _ => hlo) (fun _ => hhi)
 
 theorem fletcher_pos (cfg : Cfg α) (φ : Oracle α) (s0 : Eval α) (htau1 : 0 < cfg.tau1) (htau2 : 0 < cfg.tau2)
-    (hc2 : 0 < cfg.c2) (htau3 : 0 ≤ cfg.tau3) (htau3' : cfg.tau3 < 1) (heps : 0 ≤ cfg.eps0) :
+    (hc2 : 0 < cfg.c2) (htau3' : cfg.tau3 < 1) (heps : 0 ≤ cfg.eps0) :
     ∀ (n : Nat) (prev curr : Step α) (t : α) (ctx : Ctx α), 0 ≤ prev.t → prev.t < curr.t → curr.t = t →
       (fletcher cfg φ s0 n prev curr t ctx).ok = true → 0 < (fletcher cfg φ s0 n prev curr t ctx).t := by
   intro n
@@ -366,10 +367,10 @@ theorem fletcher_pos (cfg : Cfg α) (φ : Oracle α) (s0 : Eval α) (htau1 : 0 <
       · have := mul_pos htau1 (sub_pos.mpr hpc); linarith
     simp only [fletcher]
     exact ite_post (P := fun r : Res α => r.ok = true → 0 < r.t)
-      (fun _ => zoom_pos cfg φ s0 htau2 hc2 htau3 htau3' heps _ _ _ _ hp (le_of_lt hc))
+      (fun _ => zoom_pos cfg φ s0 htau2 hc2 htau3' heps _ _ _ _ hp (le_of_lt hc))
       (fun _ => ite_post (P := fun r : Res α => r.ok = true → 0 < r.t) (fun _ _ => hct ▸ hc)
         (fun _ => ite_post (P := fun r : Res α => r.ok = true → 0 < r.t)
-          (fun _ => zoom_pos cfg φ s0 htau2 hc2 htau3 htau3' heps _ _ _ _ (le_of_lt hc) hp)
+          (fun _ => zoom_pos cfg φ s0 htau2 hc2 htau3' heps _ _ _ _ (le_of_lt hc) hp)
           (fun _ => ite_post (P := fun r : Res α => r.ok = true → 0 < r.t)
             (fun _ => ih _ _ _ _ (le_of_lt hc) hgt rfl) (fun _ h => by simp at h))))
 
